@@ -182,7 +182,7 @@ func c06Check(u univ.Universe, root [2]string, st *c06Stats) (fails []string, ou
 				if to.Name != decl.Pkg {
 					fail("pick", fmt.Sprintf("fresh install for %s@%q installed package %s", decl.Pkg, e.Requirement, to.Name))
 				}
-				if want, ok := npmExpectedPick(u, to.Name, e.Requirement); ok && want != to.Version {
+				if want, ok := npmExpectedPick(u, to.Name, e.Requirement); ok && univ.NPMOrder[want] != univ.NPMOrder[to.Version] {
 					fail("pick", fmt.Sprintf("fresh install for %s@%q chose %s, expected %s (latest tag if it satisfies, else highest non-deprecated, else highest)", to.Name, e.Requirement, to.Version, want))
 				}
 			} else if st != nil {
